@@ -37,7 +37,10 @@ const (
 	c17FEmptyArray = "C17-empty-array-index"    // Set/Insert at an index of an empty array: panic (root) or silent no-op (nested)
 	c17FMissingIdx = "C17-missing-parent-index" // Set/Insert through a missing location followed by an index leg: internal error
 	c17FArrayEdge  = "C17-chunk-ends-before-first-element" // a leaf chunk ending right after '[' (boundary key = start of element 0): every access to that element panics
-	c17FStaleKeys  = "C17-stale-index-keys" // Insert/Remove of an array element: following chunks are reused with their old (now shifted) index keys
+	c17FStaleKeys  = "C17-stale-index-keys"   // Insert/Remove of an array element: following chunks are reused with their old (now shifted) index keys
+	c17FGtLenKeys  = "C17-append-index-keys"  // Set/Insert at an index > len appends, but chunk keys inside/after the new element carry the requested index
+	c17FEscapedKey = "C17-escaped-key-order"  // a member name with a character JSON escapes (\n, U+2028 …) is ordered by its escaped text: sibling lookups miss
+	c17FEmptyKey   = "C17-empty-key-path"     // the path member "" is rejected
 	c17FRemoveEdge = "C17-remove-first-at-chunk-end" // Remove of the first element/member whose value ends at a chunk boundary leaves the comma: invalid JSON
 )
 
@@ -83,6 +86,8 @@ type c17Shape struct {
 	wrapNMember bool // … that is an object member (the one auto-wrap the stored implementation has)
 	emptyArrIdx bool // an index leg applied to an empty array
 	lastN       bool // a last-N leg
+	gtLenFinal  bool // final leg is an index > len of an existing array
+	emptyKey    bool // a member name ""
 	quoteKey    bool // a member name containing "
 	plainHit    bool // every leg is an existing member / element
 	firstOfMany bool // plainHit and the final leg is the first of >= 2 elements/members of its container
@@ -169,6 +174,7 @@ func c17ShapeOf(doc interface{}, legs []verifJLeg) c17Shape {
 			default:
 				sh.traits = append(sh.traits, pre+"_gtlen")
 				missing = true
+				sh.gtLenFinal = final
 			}
 			if missing {
 				sh.plainHit = false
@@ -178,6 +184,9 @@ func c17ShapeOf(doc interface{}, legs []verifJLeg) c17Shape {
 		}
 		if strings.Contains(l.key, `"`) {
 			sh.quoteKey = true
+		}
+		if l.key == "" {
+			sh.emptyKey = true
 		}
 		prevKey = true
 		switch v := at.(type) {
@@ -286,6 +295,10 @@ func c17ShapeExcluded(kind string, sh c17Shape) string {
 		return c17FEmptyArray
 	case mut && sh.afterMissIx && c17Excluded(c17FMissingIdx):
 		return c17FMissingIdx
+	case mut && sh.gtLenFinal && c17Excluded(c17FGtLenKeys):
+		return c17FGtLenKeys
+	case sh.emptyKey && c17Excluded(c17FEmptyKey):
+		return c17FEmptyKey
 	}
 	return ""
 }
@@ -637,6 +650,22 @@ func c17Case(rt *rapid.T, rec *vh.Recorder) (*c17Mismatch, *c17CaseFile) {
 	ctx := sql.NewEmptyContext()
 	ns := NewTestNodeStore()
 	keys := verifJKeys
+	classes := map[string]bool{}
+	switch v := rapid.IntRange(0, 11).Draw(rt, "keyalphabet"); {
+	case v == 10:
+		// the empty member name (valid JSON, valid in a path as $."")
+		keys = append(append([]string{}, verifJKeys...), "")
+		classes["keys:empty"] = true
+	case v == 11 && !c17Excluded(c17FEscapedKey):
+		// member names with characters that JSON text escapes; paths never name these members
+		// (how such a name is written in a path is outside this check), they are only siblings
+		keys = append(append([]string{}, verifJKeys...), "a\n", "a\tb", "k\u2028")
+		classes["keys:escaped"] = true
+	}
+	pathKeys := keys
+	if classes["keys:escaped"] {
+		pathKeys = append(append([]string{}, verifJKeys...), "aA", "kz")
+	}
 	doc, class := verifJDoc(rt, keys)
 	docBytes := verifJMarshal(doc)
 	cf := &c17CaseFile{Doc: docBytes}
@@ -659,12 +688,25 @@ func c17Case(rt *rapid.T, rec *vh.Recorder) (*c17Mismatch, *c17CaseFile) {
 	sIdx := stored
 	nops := rapid.IntRange(1, 5).Draw(rt, "nops")
 	var ops []string
-	classes := map[string]bool{"size=" + class: true, fmt.Sprintf("chunks=%d", min(nchunks, 4)): true}
+	classes["size="+class] = true
+	classes[fmt.Sprintf("chunks=%d", min(nchunks, 4))] = true
 	nontrivial := false
 
 	for i := 0; i < nops; i++ {
 		kind := rapid.SampledFrom(c17Kinds).Draw(rt, "op")
-		legs, existing := c17GenLegs(rt, cur, keys)
+		legs, existing := c17GenLegs(rt, cur, pathKeys)
+		if classes["keys:escaped"] {
+			// do not name an escaped member in a path
+			clean := func(ls []verifJLeg) []verifJLeg {
+				for i, l := range ls {
+					if !l.isIdx && l.raw == "" && strings.ContainsAny(l.key, "\n\t\u2028") {
+						return ls[:i]
+					}
+				}
+				return ls
+			}
+			legs, existing = clean(legs), clean(existing)
+		}
 		sh := c17ShapeOf(cur, legs)
 		f := c17ShapeExcluded(kind, sh)
 		if f == "" && kind == "Remove" && sh.firstOfMany && c17Excluded(c17FRemoveEdge) && c17EndsAtChunkBoundary(ctx, sIdx, verifJRenderPath(legs)) {
@@ -685,7 +727,7 @@ func c17Case(rt *rapid.T, rec *vh.Recorder) (*c17Mismatch, *c17CaseFile) {
 		}
 		op := c17Op{Kind: kind, Path: verifJRenderPath(legs)}
 		if op.hasVal() {
-			op.Val = c17GenOpValue(rt, keys)
+			op.Val = c17GenOpValue(rt, verifJKeys)
 		}
 		cf.Ops = append(cf.Ops, op)
 		ops = append(ops, op.String())
@@ -709,7 +751,15 @@ func c17Case(rt *rapid.T, rec *vh.Recorder) (*c17Mismatch, *c17CaseFile) {
 	}
 
 	// Compare / JsonType of first and last document
-	if m := c17CompareDocs(ctx, stored, sIdx, doc, cur); m != nil {
+	cmpLast := sIdx
+	if c17Excluded(c17FArrayEdge) && (len(c17ArrayEdges(ctx, stored)) > 0 || len(c17ArrayEdges(ctx, sIdx)) > 0) {
+		// the stored-vs-stored comparison walks both trees with cursors: compare with a copy
+		// of the first document instead
+		classes["excluded:"+c17FArrayEdge] = true
+		cmpLast = stored
+		cur = doc
+	}
+	if m := c17CompareDocs(ctx, stored, cmpLast, doc, cur); m != nil {
 		m.msg += fmt.Sprintf(" (ops %v)", ops)
 		return m, cf
 	}
